@@ -232,12 +232,16 @@ def r1_unrenderable(ctx, prog):
         r.inst("is_possible_plural", "a null value is never a plural form")
     else:
         r.viol("R1:is_possible_plural#null-form", "a null value can be merged as a plural form: code generation would reach unreachable!()", file="leptos_i18n_parser/src/parse_locales/locale.rs")
-    fn = ctx.ast.fn("leptos_i18n_parser/src/parse_locales/parsed_value.rs", "reduce_into", impl_self="ParsedValue")
-    t = flatp(show(fn.body)) if fn else ""
-    if has(t, "ParsedValue::Default=>{}") and has(t, "ParsedValue::Subkeys_=>{}"):
-        r.inst("reduce_into", "nulls and subkeys inside a bloc are dropped")
+    # nulls and subkeys inside a bloc are dropped by reduce_into: decided by the evaluation of C01.R3 (rules/c01.py) on a bloc that
+    # holds every kind of value
+    from rules import c01
+    k3 = c01.r3_join(ctx)
+    if any("reduce_into" in v.key for v in k3.violations):
+        r.viol("R1:reduce_into#drops", "nulls / subkeys are no longer dropped from blocs: %s" % [v.msg[:160] for v in k3.violations if "reduce_into" in v.key][:1], file="leptos_i18n_parser/src/parse_locales/parsed_value.rs")
+    elif any(i["site"] == "reduce_into" for i in k3.instances):
+        r.inst("reduce_into", "nulls and subkeys inside a bloc are dropped (evaluated on a bloc holding every kind of value)")
     else:
-        r.viol("R1:reduce_into#drops", "nulls / subkeys are no longer dropped from blocs", file="leptos_i18n_parser/src/parse_locales/parsed_value.rs")
+        r.viol("R1:reduce_into#drops", "reduce_into could not be evaluated", file="leptos_i18n_parser/src/parse_locales/parsed_value.rs")
     b2 = prog.body("ranges::Ranges::from_serde_seq")
     if b2 is not None and M.call_blocks(b2, r"ranges::Ranges::is_empty$") and M.must_pass(b2, M.call_blocks(b2, r"ranges::Ranges::is_empty$"), M.ok_return_blocks(b2)):
         r.inst("Ranges::from_serde_seq", "a range without branches is rejected (EitherOfWrapper::new(0) unreachable)")
@@ -373,6 +377,26 @@ def t_termination(ctx, cfgs):
         for comp in prog.sccs(names):
             roots = tuple(sorted({root_fn(c) for c in comp}))
             e = known.get(roots)
+            if e is None:
+                # a listed cycle that gained private helpers (an extracted function called only from inside the cycle) is the same
+                # cycle with the same progress argument; so is one that lost such a helper
+                for kroots, ke in known.items():
+                    extra = set(roots) - set(kroots)
+                    lost = set(kroots) - set(roots)
+                    if not (set(roots) & set(kroots)) or (extra and lost):
+                        continue
+                    if lost and not extra:
+                        if all(x not in prog.bodies for x in lost):
+                            e = ke
+                            break
+                        continue
+                    callers = {}
+                    for nm, tgts in prog.edges().items():
+                        for t_ in tgts:
+                            callers.setdefault(root_fn(t_), set()).add(root_fn(nm))
+                    if all((x in prog.bodies and not prog.bodies[x].is_pub and callers.get(x, set()) <= set(roots)) for x in extra):
+                        e = ke
+                        break
             if e is None and _cha_only_cycle(prog, comp):
                 r.inst("cycle " + " / ".join(x.split("::")[-1] for x in roots)[:100], "artifact of the class-hierarchy approximation: impls of one trait method for generic types that only call it on their type parameters (no member calls another member directly); each real instantiation recurses into a strictly smaller type", cfg=cfg)
             elif e is None:
